@@ -107,6 +107,42 @@ theorem bound_hit_ends (P : Program) (S : Scheduler σ) (ms : MaxSteps) (n : Nat
     rw [runLoop_of_reach hr h1 fuel hfuel]
     exact ⟨rfl, h2⟩
 
+/-- **below_bound_unaffected**, kernel form: when the bound is not reached, `schedule()` under
+`FailAfter n`/`ContinueAfter n` answers exactly as it does with `MaxSteps::None` (same scheduler call, same
+answer, same kernel up to the configuration field). -/
+theorem schedule_below_bound (S : Scheduler σ) (ms : MaxSteps) (n : Nat) (hb : boundOf ms = some n)
+    (k : Kernel) (s : σ) (hk : k.maxSteps = .none) (hlt : k.schedLen - k.stepsResetAt < n) :
+    (withMS ms k).schedule S s = stepMS ms (k.schedule S s) := by
+  apply schedule_withMS S ms k s hk
+  intro n' hn'
+  rw [hb] at hn'
+  cases hn'
+  simp only [Kernel.stepBoundExceeded, decide_eq_false_iff_not, Nat.not_le]
+  exact hlt
+
+/-- **below_bound_unaffected**: if every loop head of the execution *without* a bound stays below `n` recorded
+steps (since the last reset), then the execution under `FailAfter n` / `ContinueAfter n` — same program,
+scheduler, seed, fuel — is the same execution: same outcome, same log, same final state up to the `maxSteps`
+configuration field (in particular the same recorded schedule). -/
+theorem below_bound_unaffected (P : Program) (S : Scheduler σ) (ms : MaxSteps) (n : Nat)
+    (hb : boundOf ms = some n) (seed : Nat) (s : σ) (fuel segFuel : Nat)
+    (hbelow : ∀ st, Reach S segFuel (initState P .none seed s) st → st.k.schedLen - st.k.stepsResetAt < n) :
+    (execute P S ms seed s fuel segFuel).outcome = (execute P S .none seed s fuel segFuel).outcome ∧
+    (execute P S ms seed s fuel segFuel).st.log = (execute P S .none seed s fuel segFuel).st.log ∧
+    (execute P S ms seed s fuel segFuel).st.k.schedule_ = (execute P S .none seed s fuel segFuel).st.k.schedule_ ∧
+    (execute P S ms seed s fuel segFuel).st = stMS ms (execute P S .none seed s fuel segFuel).st := by
+  have h0 : initState P ms seed s = stMS ms (initState P .none seed s) := rfl
+  have key : execute P S ms seed s fuel segFuel = resMS ms (execute P S .none seed s fuel segFuel) := by
+    rw [execute_eq, execute_eq, h0]
+    apply runLoop_stMS S segFuel ms fuel _ (LoopInv.init P .none seed s)
+    intro st' hr n' hn'
+    rw [hb] at hn'
+    cases hn'
+    simp only [Kernel.stepBoundExceeded, decide_eq_false_iff_not, Nat.not_le]
+    exact hbelow st' hr
+  rw [key]
+  exact ⟨rfl, rfl, rfl, rfl⟩
+
 /-- **steps_total_bound_partial** — the exact statement that is true.  For every iteration that continues
 (`a` → `b`): the consultation in `a` happened strictly below the bound, and the recorded schedule of `b` is
 that of `a` plus the chosen `.task t` plus **only `.random` steps** (those pushed by `next_u64` inside the
@@ -183,6 +219,14 @@ example : NoReset (exSpin 10) := by
     | zero => exact Never.pure
     | succ n ih => exact Never.op _ _ rfl (fun _ => ih)
   exact ⟨fun _ => hs 10, fun _ => Never.pure⟩
+
+/-- three switches under a bound of 5: same outcome and log as without a bound -/
+example :
+    (execute (exSpin 3) firstSched (.failAfter 5) 0 () 20 20).outcome =
+      (execute (exSpin 3) firstSched .none 0 () 20 20).outcome ∧
+    (execute (exSpin 3) firstSched (.failAfter 5) 0 () 20 20).st.log.toList =
+      (execute (exSpin 3) firstSched .none 0 () 20 20).st.log.toList ∧
+    (execute (exSpin 3) firstSched .none 0 () 20 20).st.k.schedLen = 4 := by decide
 
 example : boundOf (.failAfter 5) = some 5 ∧ boundOf (.continueAfter 5) = some 5 := ⟨rfl, rfl⟩
 
